@@ -112,7 +112,8 @@ Qed.
 
 Lemma do_act_pm k now m who a s : pm m (x_w (do_act k now m who a s)) <= pm m (x_w s).
 Proof.
-  destruct a; cbn [do_act]; try apply N.le_refl; unfold broke; destruct (bud (w_mod (x_w s) m) =? 0) eqn:E; try apply N.le_refl;
+  destruct a; cbn [do_act]; try apply N.le_refl;
+    try (cbn [say on_w x_w]; rewrite pm_set_mod; apply N.le_refl); unfold broke; destruct (bud (w_mod (x_w s) m) =? 0) eqn:E; try apply N.le_refl;
     apply N.eqb_neq in E; pose proof (spend_pm m (x_w s) E) as Hs; cbn [say on_w x_w]; unfold UU in *.
   - pose proof (buf_send_at_pm k now m far d x (spend m (x_w s))). lia.
   - unfold buf_schedule_at. rewrite buf_push_pm. cbn [snd wt]. lia.
@@ -214,7 +215,7 @@ Qed.
 Lemma catch_pm c m p w : pm m (fst (catch c m p w)) = pm m w.
 Proof.
   unfold catch. destruct p; cbn [fst]; [|reflexivity].
-  destruct (c_catch c); cbn [fst]; unfold pm; cbn [w_mod w_buf w_fes set_err set_mod]; rewrite N.eqb_refl; reflexivity.
+  destruct (catchf (w_mod w m)); cbn [fst]; unfold pm; cbn [w_mod w_buf w_fes set_err set_mod]; rewrite N.eqb_refl; reflexivity.
 Qed.
 
 Lemma at_sim_start_pm k c now m stage s :
